@@ -149,6 +149,34 @@ def Kind.isV3 : Kind → Bool
 
 abbrev Stack := List (Nat × String)
 
+/-- one iteration of the loop over the inclusion paths: `base` is the current base node (`None` before
+    the first file), `rec` processes the inclusions of a loaded file (with the stack it is given) -/
+def inclStep (rec : Stack → Y → FR Y) (W : World) (stack : Stack) (v3 : Bool) (base : Option Y) (p : String) :
+    FR (Option Y) :=
+  match findInDirs p W.dirs 0 with
+  | none => if W.ignoreNotFound then .ok base else .error (.includeNotFound p)
+  | some (di, content) =>
+    if stack.contains (di, p) then .error (.includeCycle p) else do
+    let ov ← rec ((di, p) :: stack) content
+    match base with
+    | none => .ok (some ov)
+    | some b => .ok (some (patchNode v3 b ov))
+
+/-- `process_children_include`: one child property -/
+def childStep (rec : Kind → Y → FR Y) (m : KVs) (cs : String × ChildSpec) : FR KVs :=
+  match cs.2 with
+  | .single k' => modKey cs.1 (rec k') m
+  | .each k' => modKey cs.1 (fun v => match v with
+      | .map cm => do let cm' ← mapVals (fun _ c => rec k' c) cm; .ok (.map cm')
+      | _ => .error (.shape s!"`{cs.1}` is not a mapping")) m
+
+/-- the end of `_process_node_include`: nothing included → the node itself; otherwise the last overlay
+    patches the accumulated base -/
+def finishInclude (v3 : Bool) (base : Option Y) (last : KVs) : Y :=
+  match base with
+  | none => .map last
+  | some b => patchNode v3 b (.map last)
+
 /-- `_process_node_include(last_overlay_node, …)` for an object of kind `kd` -/
 def procInclude (W : World) : Nat → Stack → Kind → Y → FR Y
   | 0, _, _, _ => .error .fuel
@@ -156,29 +184,13 @@ def procInclude (W : World) : Nat → Stack → Kind → Y → FR Y
     match node with
     | .map m0 => do
       -- children first
-      let m1 ← kd.children.foldlM (fun (m : KVs) (cs : String × ChildSpec) =>
-          match cs.2 with
-          | .single k' => modKey cs.1 (procInclude W fuel stack k') m
-          | .each k' => modKey cs.1 (fun v => match v with
-              | .map cm => do let cm' ← mapVals (fun _ c => procInclude W fuel stack k' c) cm; .ok (.map cm')
-              | _ => .error (.shape s!"`{cs.1}` is not a mapping")) m) m0
+      let m1 ← kd.children.foldlM (childStep (fun k' c => procInclude W fuel stack k' c)) m0
       match kvGet "$include" m1 with
       | none => .ok (.map m1)
       | some inc => do
         let paths ← includePaths inc
-        let last := kvErase "$include" m1
-        let base ← paths.foldlM (fun (base : Option Y) (p : String) =>
-            match findInDirs p W.dirs 0 with
-            | none => if W.ignoreNotFound then .ok base else .error (.includeNotFound p)
-            | some (di, content) =>
-              if stack.contains (di, p) then .error (.includeCycle p) else do
-              let ov ← procInclude W fuel ((di, p) :: stack) kd content
-              match base with
-              | none => .ok (some ov)
-              | some b => .ok (some (patchNode kd.isV3 b ov))) none
-        match base with
-        | none => .ok (.map last)
-        | some b => .ok (patchNode kd.isV3 b (.map last))
+        let base ← paths.foldlM (inclStep (fun st c => procInclude W fuel st kd c) W stack kd.isV3) none
+        .ok (finishInclude kd.isV3 base (kvErase "$include" m1))
     | _ => .error (.shape "includable object is not a mapping")
 
 /-! ### 2. field types: member normalisation, aliases, inheritance -/
